@@ -278,7 +278,18 @@ def pairing(ctx, f, cfg):
                 counter = any_atom(recv, "field:ParamsMetric.concurrency_counter")
                 key_from_extract = any_atom(recv, "call:Controller::<C>::extract_args")
                 guards = _guards(f, b, bb)
-                rmw.append({"op": cd.rsplit("::", 1)[1], "val": val, "counter": counter, "key_from_extract_args": key_from_extract, "guards": guards})
+                op = cd.rsplit("::", 1)[1]
+                if op == "fetch_update":
+                    # a decrement that saturates at zero: fetch_update(.., |v| v.checked_sub(1)) / saturating_sub(1)
+                    for defs in t.get("arg_defs", []):
+                        for dpath in defs:
+                            cb = f.bodies.get(dpath)
+                            if cb is None:
+                                continue
+                            for _, ct in cb.calls():
+                                if callee_def(ct).rsplit("::", 1)[-1] in ("checked_sub", "saturating_sub") and len(ct["args"]) == 2 and const_val(ct["args"][1]) is not None:
+                                    op, val = "fetch_sub", const_val(ct["args"][1])
+                rmw.append({"op": op, "val": val, "counter": counter, "key_from_extract_args": key_from_extract, "guards": guards})
         forms[name] = rmw
     exp_pass = [{"op": "fetch_add", "val": 1}]
     exp_done = [{"op": "fetch_sub", "val": 1}]
@@ -292,7 +303,7 @@ def pairing(ctx, f, cfg):
     allc = all(x["counter"] and x["key_from_extract_args"] for l in forms.values() for x in l)
     ok = okp and okc and same and allc
     ctx.instance("C05.hs-pairing", "ConcurrencyStatSlot::{on_entry_pass,on_completed}", forms,
-                 "pass: one fetch_add(1); completed: one fetch_sub(1); same counter field, same key extraction, same guards", ok, cfg)
+                 "pass: one fetch_add(1); completed: one fetch_sub(1) (plain, or saturating through fetch_update + checked_sub(1)); same counter field, same key extraction, same guards", ok, cfg)
     if not ok:
         ctx.violation("C05.hs-pairing", "C05.hs-pairing|siblings",
                       "hotspot per-value in-flight counter is not raised by one on pass and lowered by one on completion under the same guard and key: %s" % forms,
